@@ -9,7 +9,7 @@ From QV Require Import Spec.MsgWriterS.
 From QV Require Import Base.ListX Model.MsgWriter Proofs.MsgWriterP Proofs.MsgWriterScanP
      Proofs.MsgWriterNameP Proofs.MsgWriterTabP Proofs.MsgWriterTopP Proofs.MsgWriterInvP
      Proofs.MsgWriterClosP Proofs.MsgWriterNameSP Proofs.MsgWriterLayP Proofs.MsgWriterOpP
-     Proofs.MsgWriterStepP Proofs.MsgWriterMsgP Proofs.MsgWriterDecP Proofs.MsgWriterRtP.
+     Proofs.MsgWriterStepP Proofs.MsgWriterMsgP Proofs.MsgWriterDecP Proofs.MsgWriterHdrP Proofs.MsgWriterRtP.
 From QV Require Import Spec.MsgWriterAbsS.
 
 (* What is written for an owner name is either the plain wire form, or k leading labels and
@@ -168,14 +168,20 @@ Proof. exact run_writer_layout. Qed.
    message decodes under the independent RFC 1035 decoder, and the decoded message passes the pointer
    rules of Spec/MsgWriterS.v (check_qs / check_rrs / check_name / check_parts -- the core of judge13):
    walking the names in message order, every pointer that ends a name's first chunk leads strictly before
-   that name to a label start (root octets included) collected from the names decoded BEFORE it, and the
-   uncompressible RDATA names (SRV, Chaosnet A) carry no pointer -- for any expected-item lists that do
-   not demand "no compression at all" (a_nocomp = false). *)
+   that name to a label start (root octets included) collected from the names decoded BEFORE it; the
+   uncompressible RDATA names (SRV, Chaosnet A) carry no pointer; and an item written while compression
+   was DISABLED carries no pointer at all -- for any expected-item lists whose a_nocomp flags are those
+   of the mode each item of the abstract message was written in ([qflag], [rflag]). *)
 Theorem c13_spec_pointer_rules_hold : forall buf limit w0 ops, writer_new buf limit = Ok w0 ->
-  run_contract (mkD w0 []) g0 ops -> Forall op_wf ops -> Forall op_wf2 ops ->
+  run_contract (mkD w0 []) g0 ops -> Forall op_wf ops -> Forall op_wf2 ops -> Forall op_wf3 ops ->
   exists rr, run_writer buf limit ops = Ok rr /\
     match rr_final rr with
-    | Some (len, b) => exists m, decode_msg (firstn len b) = Some m /\ ptr_ok (firstn len b) m
+    | Some (len, b) =>
+      exists m, decode_msg (firstn len b) = Some m /\
+        ptr_ok (firstn len b) m (am_qs (areplay am0 ops (rr_outcomes rr))) (am_an (areplay am0 ops (rr_outcomes rr)))
+          (am_ns (areplay am0 ops (rr_outcomes rr)))
+          (am_ar (areplay am0 ops (rr_outcomes rr)) ++
+           pseudo_of (am_mode (areplay am0 ops (rr_outcomes rr))) (hreplay ah0 ops (rr_outcomes rr)))
     | None => True
     end.
 Proof. exact pointer_rules. Qed.
